@@ -177,7 +177,8 @@ class LabelProbabilityInjector(Injector):
         if len(self._p_distribution) > 0:
             # if classes skipped, ensure probability distribution adds to 1
             p_leftover = (1 - sum(self._p_distribution)) / len(self._p_distribution)
-            self._p_distribution = [p + p_leftover for p in self._p_distribution]
+            # rounding can leave a leftover of about -1e-17: no probability may go negative
+            self._p_distribution = [max(p + p_leftover, 0.0) for p in self._p_distribution]
 
             # shuffled sample over window, with replacement, with weights
             sample_idxs = np.random.choice(
